@@ -70,6 +70,12 @@ func main() {
 			os.Exit(2)
 		}
 		os.Exit(runCheck(*repo, *verif, pos[0], *tier, *verbose, *keep))
+	case "replay":
+		if len(pos) != 1 {
+			fmt.Fprintln(os.Stderr, "usage: govc replay <replay-file>")
+			os.Exit(2)
+		}
+		os.Exit(replayFile(*repo, pos[0]))
 	default:
 		fmt.Fprintln(os.Stderr, "unknown command", cmd)
 		os.Exit(2)
